@@ -14,11 +14,13 @@ Local Open Scope Z_scope.
 
 (* Karatsuba: with X = 2^k, a = a1 X + a0, b = b1 X + b0,
    a b = z2 X^2 + ((a0 + a1)(b0 + b1) - z0 - z2) X + z0 where z0 = a0 b0, z2 = a1 b1;
-   land / shiftr are the floor operations, so the identity holds for negative arguments too *)
+   land / shiftr are the floor operations, so the identity holds for negative arguments too;
+   factors 0 and 1 are answered at once (constant-time tests on the head constructor) *)
 Fixpoint kmul (fuel : nat) (k : Z) (a b : Z) : Z :=
   match fuel with
   | O => a * b
   | S f =>
+    if (a =? 0) || (b =? 0) then 0 else if a =? 1 then b else if b =? 1 then a else
     let m := Z.ones k in
     let a0 := Z.land a m in let a1 := Z.shiftr a k in
     let b0 := Z.land b m in let b1 := Z.shiftr b k in
